@@ -85,7 +85,21 @@ var zones = corpus.Zones
 func genScript(r *simrt.RNG, id int, siblings []string) string {
 	var b strings.Builder
 	for i, n := 0, 1+r.Intn(3); i < n; i++ {
-		switch r.Intn(9) {
+		switch r.Intn(10) {
+		case 9:
+			// keys whose names mean something elsewhere in the pipeline (collector conventions, point
+			// attributes, line-protocol vocabulary): for the command they are ordinary keys
+			k := specialKeys[r.Intn(len(specialKeys))]
+			switch r.Intn(4) {
+			case 0:
+				fmt.Fprintf(&b, "add_key(%s, %d)\n", k, []int64{1500000000000000000, 0, 1700000000, -1}[r.Intn(4)])
+			case 1:
+				fmt.Fprintf(&b, "add_key(%s, %q)\n", k, []string{"2024-01-02 03:04:05", "x", ""}[r.Intn(3)])
+			case 2:
+				fmt.Fprintf(&b, "set_tag(%s, \"sv\")\n", k)
+			default:
+				fmt.Fprintf(&b, "grok(_, \"%%{WORD:w} %%{NUMBER:%s}\")\ncast(%s, \"int\")\n", k, k)
+			}
 		case 0:
 			fmt.Fprintf(&b, "set_measurement(%q)\n", []string{"mm", "other", ""}[r.Intn(3)])
 		case 1:
@@ -113,6 +127,10 @@ func genScript(r *simrt.RNG, id int, siblings []string) string {
 	return b.String()
 }
 
+// specialKeys are key names with a meaning elsewhere (the collector's time key, point attributes,
+// categories, line-protocol words); `platypus run` must treat them like any other key.
+var specialKeys = []string{"time", "name", "measurement", "tags", "fields", "status", "source", "service", "category", "drop", "timestamp", "host", "message_length", "_"}
+
 func lpLine(r *simrt.RNG, i int, withTime bool) string {
 	tags := map[string]string{}
 	if r.Intn(2) == 0 {
@@ -131,6 +149,19 @@ func lpLine(r *simrt.RNG, i int, withTime bool) string {
 	if r.Intn(4) == 0 {
 		// string values with escaped quotes, raw newlines, commas, equals signs and backslashes
 		fields["note"] = []string{"size 5\" x 7\nsecond line", "a=b,c d", "back\\slash \"q\"", "\"\"\"\nx", "tab\there"}[r.Intn(5)]
+	}
+	if r.Intn(8) == 0 {
+		k := specialKeys[r.Intn(len(specialKeys)-1)]
+		switch r.Intn(3) {
+		case 0:
+			fields[k] = []int64{1500000000000000000, 1700000000, 0}[r.Intn(3)]
+		case 1:
+			fields[k] = "sv"
+		default:
+			if _, dup := fields[k]; !dup {
+				tags[k] = "tv"
+			}
+		}
 	}
 	if r.Intn(6) == 0 {
 		tags["path"] = []string{"a b", "x=y", "c,d", "e\\f"}[r.Intn(4)]
